@@ -39,6 +39,7 @@ type Obligation struct {
 
 type Engine struct {
 	staticBinds  map[*ssa.Function]map[string]int
+	tier         string
 	curFrom      []string // proof hint of the assert being generated
 	templateMode bool     // replay: stop after building the entry state and evaluate the ensures over placeholders
 	templateOut  *replayTemplates
